@@ -234,7 +234,7 @@ def register(reg):
 
     for nm in ("copy", "__copy__"):
         reg.add(Contract(key="OrderedSet." + nm, file=F, qualname="OrderedSet." + nm, cls="OrderedSet", params={"self": OS},
-                         returns=OS, requires=self_inv, ensures=copy_ens, modifies=(("OrderedSet", "impl"),)))
+                         returns=OS, requires=self_inv, ensures=copy_ens, modifies=(("OrderedSet", "impl"),), fresh_result=True))
 
     # ---------------------------------------------------------------- __len__ / __contains__ / __iter__
     def len_ens(c):
@@ -310,9 +310,9 @@ def register(reg):
         return ens
 
     reg.add(Contract(key="ordered_intersect", file=F, qualname="ordered_intersect", params={"a": SEQ, "b": SEQ}, returns=OS,
-                     ensures=helper("ordered_intersect", z3.SetIntersect), modifies=(("OrderedSet", "impl"),)))
+                     ensures=helper("ordered_intersect", z3.SetIntersect), modifies=(("OrderedSet", "impl"),), fresh_result=True))
     reg.add(Contract(key="ordered_diff", file=F, qualname="ordered_diff", params={"a": SEQ, "b": SEQ}, returns=OS,
-                     ensures=helper("ordered_diff", z3.SetDifference), modifies=(("OrderedSet", "impl"),)))
+                     ensures=helper("ordered_diff", z3.SetDifference), modifies=(("OrderedSet", "impl"),), fresh_result=True))
 
     def union_loop(c):
         S = c.S
@@ -338,7 +338,7 @@ def register(reg):
         ]
 
     reg.add(Contract(key="ordered_union", file=F, qualname="ordered_union", params={"a": SEQ, "b": SEQ}, returns=OS,
-                     ensures=helper("ordered_union", z3.SetUnion), loops={0: union_loop}, modifies=(("OrderedSet", "impl"),)))
+                     ensures=helper("ordered_union", z3.SetUnion), loops={0: union_loop}, modifies=(("OrderedSet", "impl"),), fresh_result=True))
 
 
 def T_varargs(names):
